@@ -310,7 +310,7 @@ LEVEL_TEXT_ADDENDA = {
            "semantically over (count, n, size). A constraint acts through its own assertion list, not through a side effect on another element (R-EFFECT-ONLY: the two buffer accesses are recorded findings).",
     "C11": " Also: the stored busy pair is tied to the task span with delay-in / early-out (R-BUSY-BIND), every task end is "
            "asserted <= the horizon variable (R-HORIZON), an unscheduled optional task has start, end and duration pinned to its "
-           "negative point (R-SET-ASSERTIONS). The part of a unit worker's name before the marker is the cumulative worker's own name, unchanged (R-MARKER). Every task class asserts start >= 0 on every parameter combination (R-TASK-OBLIG): the reporters' `busy >= 0` test means 'assigned' only then. R-REPORT-READONLY (see C09); a horizon the problem constructor computes itself is asserted and an integer (R-HORIZON). The calendar end is problem start + end * step for unscheduled tasks too (R-CALENDAR, exact). R-BASE-STORE (see C01): the binding of a busy interval reaches the solver only if the store keeps it.",
+           "negative point (R-SET-ASSERTIONS). The part of a unit worker's name before the marker is the cumulative worker's own name, unchanged (R-MARKER). Every task class asserts start >= 0 on every parameter combination (R-TASK-OBLIG): the reporters' `busy >= 0` test means 'assigned' only then. R-REPORT-READONLY (see C09); a horizon the problem constructor computes itself is asserted and an integer (R-HORIZON). The calendar end is problem start + end * step for unscheduled tasks too (R-CALENDAR, exact). R-BASE-STORE (see C01): the binding of a busy interval reaches the solver only if the store keeps it. The four add_*_solution methods of SchedulingSolution store their argument itself, once, unconditionally, under its own name, and leave it untouched (R-SOLUTION-STORE): the two views R-VIEW-SYMMETRY decided are the two views the caller reads.",
     "C12": " Also: answering methods assert only inside pushed scopes and pop them all (R-SCOPED-ASSERT, R-PUSH-POP), an "
            "unscheduled task has one representation (R-SET-ASSERTIONS), verdicts are fresh (R-CHECK-FRESH), and nothing beyond the "
            "documented groups is asserted at initialisation (R-STREAM-EXACT). Every task's own obligations are asserted on every parameter combination (R-TASK-OBLIG): the enumeration walks exactly the valid timings. The rules R-STREAM-EXACT hands the groups of initialize() to are run in this check as well (R-DRAIN, R-HORIZON, R-WORK-AMOUNT, R-PAIRWISE, R-BUF-ENCODING, R-WEIGHTED). The exclusion added by find_another_solution_for_variable holds for the request only (R-VAR-SCOPE: recorded finding).",
